@@ -362,7 +362,5 @@ def has_bound_var(t):
             return True
         if z3.is_app(e):
             stack.extend(e.children())
-        elif z3.is_quantifier(e):
-            # nested closed quantifier: its own vars are fine; conservative: look inside
-            stack.append(e.body())
+        # closed quantifiers are fine: their de-Bruijn variables are bound
     return False
